@@ -28,12 +28,13 @@ type PropConfig struct {
 	// replay drivers: function full name (or obligation prefix) -> driver
 	Replay map[string]ReplayDriver `json:"replay"`
 	// bounded stand-ins: run in thorough tier (and when a function drifts)
-	Bounded     []BoundedCheck `json:"bounded"`
-	Tables      []TableCheck   `json:"tables"`
-	Assumptions []string       `json:"assumptions"`
-	TrustedBase []string       `json:"trusted_base"`
-	MinObl      int            `json:"min_obligations"`
-	QuickMs     int            `json:"quick_timeout_ms"`
+	Bounded         []BoundedCheck `json:"bounded"`
+	Tables          []TableCheck   `json:"tables"`
+	Assumptions     []string       `json:"assumptions"`
+	TrustedBase     []string       `json:"trusted_base"`
+	MinObl          int            `json:"min_obligations"`
+	QuickMs         int            `json:"quick_timeout_ms"`
+	InferClosurePre bool           `json:"infer_closure_pre"`
 }
 
 type ReplayDriver struct {
@@ -118,6 +119,27 @@ func runCheck(args []string) int {
 	}
 	var drift []string
 	nContract := 0
+	e.inferClosures = cfg.InferClosurePre
+	timeout := 4000
+	if cfg.QuickMs > 0 {
+		timeout = cfg.QuickMs
+	}
+	all := false
+	if tier == "thorough" {
+		timeout *= 8
+		all = true
+	}
+	outDir := filepath.Join(verifDir(), "out", "vc", id)
+	os.RemoveAll(outDir)
+	// work list: functions under contract, then swept functions; executed in order of closure
+	// nesting depth so that the facts a closure may assume about its captured cells (class
+	// "infer", proved at the creation site in the enclosing function) are decided first
+	type work struct {
+		fn    *ssa.Function
+		name  string
+		sweep bool
+	}
+	var works []work
 	for _, name := range cfg.Functions {
 		if nn, ok := e.rebound[name]; ok {
 			name = nn
@@ -132,9 +154,7 @@ func runCheck(args []string) int {
 			continue
 		}
 		nContract++
-		if err := e.verifyFunction(f, false); err != nil {
-			drift = append(drift, name+": "+err.Error())
-		}
+		works = append(works, work{f, name, false})
 	}
 	skip := map[string]bool{}
 	for _, s := range cfg.SweepSkip {
@@ -161,7 +181,36 @@ func runCheck(args []string) int {
 			continue
 		}
 		done[n] = true
-		e.verifyFunction(f, true)
+		works = append(works, work{f, n, true})
+	}
+	depthOf := func(f *ssa.Function) int {
+		d := 0
+		for p := f.Parent(); p != nil; p = p.Parent() {
+			d++
+		}
+		return d
+	}
+	maxDepth := 0
+	for _, w := range works {
+		if d := depthOf(w.fn); d > maxDepth {
+			maxDepth = d
+		}
+	}
+	if !e.inferClosures {
+		maxDepth = -1
+	}
+	for d := 0; d <= maxDepth || d == 0; d++ {
+		for _, w := range works {
+			if maxDepth >= 0 && depthOf(w.fn) != d {
+				continue
+			}
+			if err := e.verifyFunction(w.fn, w.sweep); err != nil && !w.sweep {
+				drift = append(drift, w.name+": "+err.Error())
+			}
+		}
+		if maxDepth >= 0 && d < maxDepth {
+			e.discharge(outDir, timeout, all, runtime.NumCPU())
+		}
 	}
 	for _, ln := range cfg.Lemmas {
 		e.proveLemma(ln)
@@ -173,17 +222,6 @@ func runCheck(args []string) int {
 		e.checkPrivate(p)
 	}
 	e.proveIndLemmas()
-	timeout := 4000
-	if cfg.QuickMs > 0 {
-		timeout = cfg.QuickMs
-	}
-	all := false
-	if tier == "thorough" {
-		timeout *= 8
-		all = true
-	}
-	outDir := filepath.Join(verifDir(), "out", "vc", id)
-	os.RemoveAll(outDir)
 	e.discharge(outDir, timeout, all, runtime.NumCPU())
 
 	// ---- classify ----
@@ -195,6 +233,7 @@ func runCheck(args []string) int {
 		}
 	}
 	total, discharged, knownObl := 0, 0, 0
+	inferProved, inferRejected := 0, 0
 	var failed []*Obligation
 	var vacuous []string
 	classCount := map[string]int{}
@@ -215,6 +254,16 @@ func runCheck(args []string) int {
 		if ob.Class == "canary" {
 			if e.vacuous(ob) {
 				vacuous = append(vacuous, name)
+			}
+			continue
+		}
+		if ob.Class == "infer" {
+			// candidate closure preconditions: the proved ones were assumed by the closure, the
+			// others were not assumed by anybody; neither is an obligation of the property
+			if ob.status() == "unsat" {
+				inferProved++
+			} else {
+				inferRejected++
 			}
 			continue
 		}
@@ -317,7 +366,7 @@ func runCheck(args []string) int {
 		}
 		p := filepath.Join(replayDir, safeName.ReplaceAllString(name, "_")+"_contract_applies.json")
 		js, _ := json.MarshalIndent(map[string]interface{}{"property": id, "obligation": name + "/contract/applies", "class": "contract",
-			"description": "the contract of this function no longer applies to the code in the working tree, so none of its obligations can be generated",
+			"description":     "the contract of this function no longer applies to the code in the working tree, so none of its obligations can be generated",
 			"verifier_output": d}, "", " ")
 		os.WriteFile(p, js, 0o644)
 		lines = append(lines, fmt.Sprintf("VIOLATION property=%s replay=%s no-failing-input-found", id, p))
@@ -404,6 +453,19 @@ func runCheck(args []string) int {
 		"contract_files":          e.cs.Files,
 		"floats_as_reals":         true,
 		"vacuity_canaries_proved": vacuous,
+	}
+	if e.inferClosures {
+		var iu []string
+		for k := range e.inferredUsed {
+			iu = append(iu, k)
+		}
+		sort.Strings(iu)
+		cov["inferred_closure_preconditions"] = map[string]interface{}{
+			"method":                   "candidate facts over never-reassigned captured cells, each proved at the closure's creation site (obligation class infer) before the closure may assume it",
+			"candidates_proved":        inferProved,
+			"candidates_rejected":      inferRejected,
+			"assumed_at_closure_entry": iu,
+		}
 	}
 	ev := map[string]interface{}{
 		"property_id": id,
